@@ -5,7 +5,7 @@ import Pog.Model.Http
 
     prepareHeaders    [cfg]        cfg = {"defaults": pairs|null, "headers": pairs|null, "auth": plugin|null,
                                           "bearer": str|null, "params": pairs|null, "cookies": pairs|null}
-                                   → {"headers": pairs, "params": pairs|null, "cookies": pairs|null}
+                                   → {"headers": pairs, "params": pairs|null, "cookies": pairs|null}   (what httpx gets: `sendArgs`)
                                    | {"raises": "ValueError", "msg": str}
     prepareHeadersSeq [cfg, n]     n consecutive requests through the same transport object → list of replies
     authenticate      [plugin, {"headers","params","cookies"}]  → the three dicts | raises
